@@ -106,6 +106,16 @@ impl IndexRead {
         if entries.is_empty() {
             // It's legal, it's just weird - and it can be produced by some old Conserve versions.
         }
+        // Everything that reads the index relies on the entries being in apath order; a damaged
+        // hunk can still decode to entries that are not.
+        if let Some(w) = entries.windows(2).find(|w| w[0].apath >= w[1].apath) {
+            return Err(Error::InvalidMetadata {
+                details: format!(
+                    "Index hunk {path:?} is not in apath order: {:?} is followed by {:?}",
+                    w[0].apath, w[1].apath
+                ),
+            });
+        }
         Ok(Some(entries))
     }
 
